@@ -245,8 +245,13 @@ def checksum_function():
     code = compile(ast.fix_missing_locations(ast.Module(body=prefix, type_ignores=[])), "<checksum-prefix>", "exec")
     glob = dict(vars(evmod))
 
+    try:
+        dummy = object.__new__(cls)          # `self` for a digest that goes through a helper method (no __init__: nothing is compiled)
+    except Exception:  # noqa
+        dummy = None
+
     def digest(text):
-        ns = {param: text}
+        ns = {param: text, "self": dummy}
         exec(code, glob, ns)
         return ns[target[0]]
     try:
@@ -336,6 +341,61 @@ def sized_twins(ctx):
                     return
 
 
+def offset_twins(ctx):
+    """twin texts that differ in ONE byte — the first group's one-digit weight — placed at byte offset p of the text by a leading comment, for every p next to a
+    multiple of a power of two or of ten (m*2^j + d, m*10^j + d, up to 2^20): a change-detection digest that drops or repeats a byte at a block boundary does
+    not see the difference.  The implementation's own digest (cut out of its source) is asked first — thousands of offsets cost seconds — and every offset at
+    which it does not move is then run through a real evaluator: new(T1); recompile(T2); calls, against an evaluator built from T2."""
+    import choicelib
+    from pyab_experiment.experiment_evaluator import ExperimentEvaluator
+    digest = checksum_function()
+    if digest is None:
+        ctx.count("offset-twins:digest-not-extractable")
+        offsets = [2 ** j + d for j in (12, 14, 15, 16, 17) for d in (-1, 0)] + [49151, 49152, 98303, 59999, 60000]
+    else:
+        offsets = [n - 1 for n in choicelib.key_lengths(20) if n > 80]
+    head = "/*"
+    tail = ', "b" weighted 1, "c" weighted 2 }'
+
+    def text(p, digit):
+        body = 'def e { splitters: u return "a" weighted '
+        pad = p - len(head) - 2 - 1 - len(body)
+        return head + "x" * pad + "*/ " + body + digit + tail
+
+    suspects = []
+    for p in offsets:
+        t1, t2 = text(p, "1"), text(p, "9")
+        assert t1[p] == "1" and t2[p] == "9"
+        ctx.count("offset-twins:offsets")
+        if digest is None:
+            suspects.append(p)
+            continue
+        try:
+            if digest(t1) == digest(t2):
+                suspects.append(p)
+        except Exception as ex:  # noqa
+            ctx.notes.append("offset twins: digest raised " + repr(ex)[:100])
+            return
+    ctx.case(("offset-twins", len(offsets)), True)
+    units = ["user_%d" % i for i in range(200)]
+    for p in suspects[:12]:
+        t1, t2 = text(p, "1"), text(p, "9")
+        ev, _ = common.quiet(lambda: ExperimentEvaluator(t1))
+        try:
+            common.quiet(lambda: ev.recompile(t2))
+        except Exception:  # noqa
+            continue
+        fresh, _ = common.quiet(lambda: ExperimentEvaluator(t2))
+        bad = [u for u in units if ev(u=u) != fresh(u=u)]
+        ctx.count("offset-twins:run-through-evaluator")
+        if bad:
+            ctx.violation(f"two texts that differ only in the byte at offset {p} (the first group's weight, 1 -> 9): after new(T1); recompile(T2) the evaluator still answers as T1 "
+                          f"({len(bad)} of {len(units)} units differ from an evaluator built from T2)",
+                          {"offset": p, "t1_head": t1[:20], "t1_tail": t1[p - 45:], "t2_tail": t2[p - 45:], "rebuild": "'/*' + 'x' * (offset - 48) + '*/ ' + tail",
+                           "env": common.enc_env({"u": bad[0]}), "impl": common.outcome_of(lambda: ev(u=bad[0])), "fresh": common.outcome_of(lambda: fresh(u=bad[0]))})
+            return
+
+
 def _fresh(text, envs):
     from pyab_experiment.experiment_evaluator import ExperimentEvaluator
     try:
@@ -356,6 +416,10 @@ def run(ctx, focuses, n, with_model=True):
     sized_twins(ctx)
     if ctx.new_violations():
         return
+    if "weights" in focuses or "trivia" in focuses:
+        offset_twins(ctx)
+        if ctx.new_violations():
+            return
     plan = []
     for f in focuses:
         plan += [(f,) + p for p in pairs(rng, f, n)]
